@@ -114,6 +114,52 @@ type monitors struct {
 	tampered   bool // object storage was tampered with: C02/C03/C04 speak about untampered histories
 	leafCache  map[string][]*sunlight.LogEntry // decoded published trees (data tiles are immutable)
 	checks     map[string]int
+	uploaded   map[string][32]byte // digest of what an instance last uploaded under each key
+}
+
+func (m *monitors) noteUpload(key string, data []byte) {
+	if m.uploaded == nil {
+		m.uploaded = map[string][32]byte{}
+	}
+	m.uploaded[key] = sha256.Sum256(data)
+}
+
+// edgeData (C08): the right-edge data tile and level-0 hash tile of a checkpoint being published,
+// when both are objects an instance uploaded itself (not what tampering left there), describe the
+// same leaves: a log that continues after tampering continues from the committed tree, it does not
+// publish entries the signed tree does not commit to.
+func (m *monitors) edgeData(w *world, t cpTuple) {
+	if t.size == 0 {
+		return
+	}
+	n := (t.size - 1) / 256
+	wd := int(t.size - n*256)
+	dk := sunlight.TilePath(tlog.Tile{H: 8, L: -1, N: n, W: wd})
+	hk := sunlight.TilePath(tlog.Tile{H: 8, L: 0, N: n, W: wd})
+	do, ok1 := w.objects[dk]
+	ho, ok2 := w.objects[hk]
+	if !ok1 || !ok2 || sha256.Sum256(do.data) != m.uploaded[dk] || sha256.Sum256(ho.data) != m.uploaded[hk] {
+		return
+	}
+	m.checks["C08.edge-data"]++
+	raw, err := gunzip(do.data)
+	if err != nil || len(ho.data) != 32*wd {
+		m.fail("C08 published checkpoint of size %d: right-edge tiles uploaded by the log itself are malformed", t.size)
+		return
+	}
+	for i := 0; i < wd; i++ {
+		e, rest, err := sunlight.ReadTileLeaf(raw)
+		if err != nil {
+			m.fail("C08 published checkpoint of size %d: right-edge data tile uploaded by the log itself does not parse at entry %d", t.size, int(n)*256+i)
+			return
+		}
+		raw = rest
+		h := leafHash(e.MerkleTreeLeaf())
+		if string(h[:]) != string(ho.data[32*i:32*i+32]) {
+			m.fail("C08 published checkpoint of size %d: the entry published at position %d is not the leaf the signed tree commits to", t.size, int(n)*256+i)
+			return
+		}
+	}
 }
 
 func newMonitors() *monitors { return &monitors{checks: map[string]int{}} }
@@ -170,6 +216,7 @@ func (m *monitors) published(w *world, data []byte) {
 	}
 	m.pubhist = append(m.pubhist, t)
 	m.audit(w, t, "at-publish")
+	m.edgeData(w, t)
 }
 
 func (m *monitors) discarded(w *world, key string) {
